@@ -422,6 +422,18 @@ def check_C11(ck):
         cases.append(("miller/len%d" % ln, "miller %s %s" % (sp, sq))); exp.append(None)
         if ln == 2:
             cases.append(("pairprod", "pairprod %s %s %s %s" % (g1.A(ps[0]), g2.A(qs[0]), g1.A(ps[1]), g2.A(qs[1])))); exp.append(O.show_f12(prod))
+    # adjacent entries that are +-the same point (a caching/"re-use the prepared element" bug needs exactly this)
+    P0, Q0 = pool[0]
+    if 0 in val:
+        inv0 = O.f12_pow(val[0], R - 1)
+        for signs in ([1, -1, -1], [1, -1, 1], [-1, -1, 1], [1, 1, -1, -1], [1, -1, 1, -1], [1, 1, 1]):
+            for side in ("q", "p"):
+                ps = [P0 if (side == "q" or sg > 0) else g1.C.neg(P0) for sg in signs]
+                qs = [Q0 if (side == "p" or sg > 0) else g2.C.neg(Q0) for sg in signs]
+                prod = O.F12_ONE
+                for sg in signs:
+                    prod = O.f12_mul(prod, val[0] if sg > 0 else inv0)
+                cases.append(("multi/sign-pattern-%s" % side, "pairmulti %s %s" % (";".join(g1.A(P) for P in ps), ";".join(g2.A(Qp) for Qp in qs)))); exp.append(O.show_f12(prod))
     # cancelling exponents: e(aP,Q) e(-aP,Q) = 1 ; sum a_i b_i = 0 mod r
     P, Qp = pool[0]
     a = rng.randrange(1, R)
@@ -777,6 +789,21 @@ def check_C07(ck):
             ck.expect(ok, "invariant:random", c[1], impl, "non-identity subgroup point", "random() returns a subgroup member")
         zc = ck.run([("zero", "%s jaczero" % tag), ("zero", "%s affzero" % tag), ("zero", "%s jaciszero %s" % (tag, g.J(None))), ("zero", "%s affiszero inf" % tag)])
         ck.expect(zc[1][0] == "inf" and zc[2][0] == "true" and zc[3][0] == "true", "identity-constructors", "zero()", str([z[0] for z in zc]), "identity", "zero() is the identity")
+        # batch normalisation of valid points (with identity entries produced in several ways) keeps the invariant
+        S1, S2 = g.sub_pt(rng), g.sub_pt(rng)
+        for lst in ([g.J(None), g.J(S1, g.lam(rng))], [g.J(S1, g.lam(rng)), g.J(None), g.J(S2)], [g.J(None)], [g.J(S1), g.J(None), g.J(None), g.J(S2, g.lam(rng))]):
+            line = "%s batch %s" % (tag, ";".join(lst))
+            (impl, _), = ck.run([("batch-with-identity", line)])
+            ok = impl not in ("PANIC", "BAD-CASE", "-")
+            if ok:
+                for o in impl.split(";"):
+                    x, y, z = [O.parse_f(K, t) for t in o.split("/")]
+                    if K.is_zero(z):
+                        continue
+                    zi = K.inv(z); zi2 = K.mul(zi, zi)
+                    Pt = (K.mul(x, zi2), K.mul(y, K.mul(zi2, zi)))
+                    ok = ok and C.on_curve(Pt) and C.mul(Pt, R) is None
+            ck.expect(ok, "invariant:batch_normalization", line, impl[:100], "members", "batch normalisation output stays in the subgroup (identity entries stay the identity)")
         ores = ck.run(outs)
         for c, (impl, _) in zip(outs, ores):
             try:
@@ -1200,6 +1227,13 @@ def check_C13(ck):
                 else:
                     w = ";".join(("%x" % e) if m_ == 1 else ("%x,%x" % e) for e in want) or "-"
                 cases.append(("h2f/%s/%s/count%d" % (fld, x, cnt), "h2f %s %s %s %s %x" % (fld, x, hx(m), hx(d), cnt))); exp.append(w)
+    # same (msg, dst, length) back-to-back with different expanders / element types
+    m0, d0 = msgs[2], dsts[3]
+    for (fld, m_, L, p, cnt) in (("fq", 1, 64, Q, 2), ("fq2", 2, 64, Q, 1), ("fr", 1, 48, R, 2), ("fq", 1, 64, Q, 2)):
+        for x in ("xmd256", "xmd512", "xof128", "xof256"):
+            want = O.hash_to_field(x, m0, d0, cnt, m_, L, p)
+            w = ";".join(("%x" % e) if m_ == 1 else ("%x,%x" % e) for e in want)
+            cases.append(("h2f/back-to-back", "h2f %s %s %s %s %x" % (fld, x, hx(m0), hx(d0), cnt))); exp.append(w)
     # reduction blocks
     for (fld, L, p) in (("fq", 64, Q), ("fr", 48, R)):
         blocks = [bytes([0xff] * L), bytes(L), (p).to_bytes(L, "big"), (p + 1).to_bytes(L, "big"), (p * 12345 + 7).to_bytes(L, "big"),
@@ -1316,6 +1350,17 @@ def check_C06(ck):
                 ck.expect(C.mul(P, R) is None and C.on_curve(P), "subgroup", c[1], impl, "[r]P=O", "result in the order-r subgroup")
             except Exception:
                 ck.expect(False, "subgroup", c[1], impl, "a point", "result in the order-r subgroup")
+        # the same (msg, dst) back-to-back with every expander and both modes (a cache keyed too coarsely shows here)
+        m0, d0 = msgs[3], dsts[2]
+        seq = []
+        for x in ("xmd256", "xmd512", "xof128", "xof256", "xmd256"):
+            for mode in ("ro", "nu"):
+                seq.append((x, mode))
+        us2 = [O.hash_to_field(x, m0, d0, 2 if mode == "ro" else 1, m_, L, Q) for (x, mode) in seq]
+        want2, _, _ = _compose_map(ck, g, tag, us2, "h2c")
+        sc = [("h2c/same-msg-dst-different-suite", "h2c %s %s %s %s %s" % (tag, x, mode, hx(m0), hx(d0))) for (x, mode) in seq]
+        for c, (impl, _), w in zip(sc, ck.run(sc), want2):
+            ck.expect(impl == g.A(w), "rfc-suite:back-to-back", c[1], impl, g.A(w), "result depends only on (suite, msg, dst), not on the previous call")
         # determinism: same call twice in the same process
         rep = cases[:3] + cases[:3]
         rr = ck.run(rep)
@@ -1594,6 +1639,7 @@ def check_C20(ck):
         work += ["g1 mul %s %x" % (g1.J(P, g1.lam(rng)), k), "g2 affmul %s %x" % (g2.A(Qp), k),
                  "g1 wnaf 4 %s %x" % (g1.J(P), k), "pairing %s %s" % (g1.A(P), g2.A(Qp)),
                  "h2c g1 xmd256 ro %s 51" % bytes(rng.randrange(256) for _ in range(9)).hex(),
+                 "h2c g1 xmd512 ro 0102 51", "h2c g2 xmd256 nu 0102 51", "h2c g1 xof128 ro 0102 51", "h2c g1 xmd256 ro 0102 51", "h2f fq2 xmd512 0102 51 1", "h2f fq xof256 0102 51 2",
                  "g1 wnafhist bs:%s:5:%x;sb:%x:%s;bs:%s:300:%x" % (g1.J(P), k, k, g1.J(g1.gen), g1.J(P), k // 3),
                  "g1 wnafhist bs:%s:5:%x;bs:%s:5:0;sb:%x:%s;sb:0:%s;bsh:%s:2:0;bs:%s:2:1" % (g1.J(P), k, g1.J(P), k, g1.J(P), g1.J(P), g1.J(P), g1.J(P)),
                  "g2 wnafhist sb:%x:%s;sb:0:%s;bs:%s:9:%x;bs:%s:9:0" % (k, g2.J(Qp), g2.J(Qp), g2.J(Qp), k, g2.J(Qp)),
